@@ -187,6 +187,11 @@ func (p c03) Run(c *core.Ctx) {
 			names = append(names, nm)
 		}
 		sort.Strings(names)
+		// a lookup under the type name of a custom-named (and substituted) component never yields a further version
+		if ps := checkTypeNameLookups(c, r, sc); len(ps) > 0 {
+			c.Fail("", ps[0], failDetail(sc, r, map[string]any{"plan": plan}))
+			return
+		}
 		for _, nm := range names {
 			var final any
 			var err error
